@@ -81,10 +81,12 @@ Unlock(s, g) == IF s.pc[g] = "unlock" THEN {[s EXCEPT !.pc[g] = "idle", !.lk = s
 IntSucc(s) == UNION {Lock(s, g) \cup Check(s, g) \cup Respond(s, g) \cup Unlock(s, g) : g \in Gs}
 EnvActs == {[a |-> "inject", g |-> g, q |-> q, b |-> "none"] : g \in Gs, q \in QIds}
            \cup {[a |-> "done", g |-> g, q |-> 0, b |-> b] : g \in Gs, b \in {"piggy", "none"}}
-           \cup {[a |-> "expire", g |-> 0, q |-> 0, b |-> "none"]}
+           \cup {[a |-> "expire", g |-> 0, q |-> 0, b |-> "none"], [a |-> "lapse", g |-> 0, q |-> 0, b |-> "none"]}
 EnvApply(s, a) == CASE a.a = "inject" -> Inject(s, a.g, a.q)
                     [] a.a = "done"   -> HandlerDone(s, a.g, a.b)
-                    [] a.a = "expire" -> IF s.rc # [m \in {} |-> None] /\ \A g \in Gs : s.pc[g] \in {"idle", "handler", "lock"} THEN Expire(s) ELSE {}
+                    \* "lapse": the lifetime of everything stored so far elapses and NO sweep has run yet - the entries still sit in the
+                    \* table, expired: a look-up reports them absent and a store replaces them, so the abstract cache is empty as after a sweep
+                    [] a.a \in {"expire", "lapse"} -> IF s.rc # [m \in {} |-> None] /\ \A g \in Gs : s.pc[g] \in {"idle", "handler", "lock"} THEN Expire(s) ELSE {}
 EnvSucc(s) == UNION {EnvApply(s, a) : a \in EnvActs}
 RECURSIVE Quiesce(_)
 Quiesce(s) == IF IntSucc(s) = {} THEN {s} ELSE UNION {Quiesce(t) : t \in IntSucc(s)}
